@@ -234,6 +234,10 @@ def immOp (working : Nat) (c : OT) (args : List String) : String :=
     match dec s, dec e with
     | some s, some e => fmtRes (readTree c (.range s e (dir == "asc") false)) ++ " valid=0"
     | _, _ => "bad"
+  | "iterinc" :: s :: e :: _ =>
+    match dec s, dec e with
+    | some s, some e => fmtRes (readTree c (.range s e true true)) ++ " valid=0"
+    | _, _ => "bad"
   | "iterate" :: rest =>
     match readTree c (.range none none true false) with
     | .list l => let (l', st) := cutAt (stopOf rest) l; fmtPairs l' ++ " stopped=" ++ b2s st
@@ -418,6 +422,14 @@ partial def exec (x : XState) (args : List String) : XState × String :=
   | ["delfrom", n] => stepOp x (.delfrom n.toNat!)
   | ["whash"] => (x, enc (some (hashO x.vs.workingVersion x.vs.working)))
   | ["lhash"] => (x, enc (some (hashO 0 x.vs.lastSaved)))
+  | ["chash"] =>
+    -- the hash of the last saved version, asked only while the working tree is clean (v2's Hash()
+    -- is undefined on a dirty tree)
+    let dirty := match x.vs.working with
+      | some (.leaf _ _ none) => true
+      | some (.inner _ _ _ none _ _) => true
+      | _ => false
+    if dirty || (x.vs.working.isNone && x.vs.lastSaved.isSome) then (x, "?") else (x, enc (some (hashO 0 x.vs.working)))
   | ["wver"] => (x, toString x.vs.workingVersion)
   | ["isempty"] => (x, b2s x.vs.working.isNone)
   | ["latest"] => stepOp x .latest
